@@ -246,4 +246,337 @@ theorem advanceWithError_items (s : PState) (hc : Coh s) (hne : s.current ≠ .e
     exact this
   · rw [yield_closeRule, h.2, hcur]
 
+theorem cast_max_le {a b : Nat} {c : Int} (ha : (a : Int) ≤ c) (hb : (b : Int) ≤ c) : ((max a b : Nat) : Int) ≤ c := by
+  rcases Nat.le_total a b with h | h
+  · rw [Nat.max_eq_right h]; exact hb
+  · rw [Nat.max_eq_left h]; exact ha
+
+theorem H_step {f : PState → PState × List Item} (hy : Yields f) (s : PState) :
+    H (f s).1.toks ≤ H s.toks - excess (yieldItems (f s).2) :=
+  H_of_yield (hy s)
+
+theorem ruleBoolean_items (s : PState) (hc : Coh s) :
+    itemsDepth (ruleBoolean s).2 ≤ 1 ∧ excess (yieldItems (ruleBoolean s).2) = 0 := by
+  unfold ruleBoolean
+  simp only []
+  rw [yield_closeRule]
+  split
+  · rename_i hk
+    have h := expect_items s .false_ hc (by decide)
+    have hd := itemsDepth_closeRule .boolean (s.expect .false_).2
+    rw [h.1] at hd
+    rw [h.2, if_pos hk]
+    exact ⟨hd, rfl⟩
+  · split
+    · rename_i hk
+      have h := expect_items s .true_ hc (by decide)
+      have hd := itemsDepth_closeRule .boolean (s.expect .true_).2
+      rw [h.1] at hd
+      rw [h.2, if_pos hk]
+      exact ⟨hd, rfl⟩
+    · have hd := itemsDepth_closeRule .boolean []
+      simp at hd
+      exact ⟨hd, by simp [excess]⟩
+
+theorem ruleLiteral_items (s : PState) (hc : Coh s) :
+    itemsDepth (ruleLiteral s).2 ≤ 2 ∧ excess (yieldItems (ruleLiteral s).2) = 0 := by
+  unfold ruleLiteral
+  simp only []
+  rw [yield_closeRule]
+  have tokCase : ∀ k : Tok, k ≠ .eof → bw k = 0 → (s.current == k) = true →
+      itemsDepth (closeRule .literal (s.expect k).2) ≤ 2 ∧ excess (yieldItems (s.expect k).2) = 0 := by
+    intro k hne hb hk
+    have h := expect_items s k hc hne
+    have hd := itemsDepth_closeRule .literal (s.expect k).2
+    rw [h.1] at hd
+    rw [h.2, if_pos hk, hb]
+    exact ⟨by omega, rfl⟩
+  split
+  · rename_i hk; exact tokCase .string (by decide) (by decide) hk
+  split
+  · rename_i hk; exact tokCase .number (by decide) (by decide) hk
+  split
+  · have h := ruleBoolean_items s hc
+    have hd := itemsDepth_closeRule .literal (ruleBoolean s).2
+    exact ⟨by omega, h.2⟩
+  split
+  · rename_i hk; exact tokCase .null_ (by decide) (by decide) hk
+  · constructor
+    · have hd := itemsDepth_closeRule .literal []
+      simp at hd ⊢
+      omega
+    · simp [excess]
+
+/-- what a rule function emits: at least as many openers as closers, and a tree whose depth is
+bounded by the bracket nesting still possible in the remaining tokens -/
+def Shallow (f : PState → PState × List Item) (c : Int) (guard : PState → Prop) : Prop :=
+  ∀ s, Coh s → guard s → 0 ≤ excess (yieldItems (f s).2) ∧ (itemsDepth (f s).2 : Int) ≤ 2 * H s.toks + c
+
+theorem rules_depth (fuel : Nat) :
+    Shallow (ruleValue fuel) 2 (fun _ => True) ∧ Shallow (ruleMember fuel) 3 (fun _ => True) ∧
+    Shallow (objectLoop fuel) 3 (fun _ => True) ∧
+    Shallow (ruleObject fuel) 2 (fun s => (s.current == .lbrace) = true) ∧
+    Shallow (arrayLoop fuel) 2 (fun _ => True) ∧
+    Shallow (ruleArray fuel) 2 (fun s => (s.current == .lbrak) = true) := by
+  induction fuel with
+  | zero =>
+    refine ⟨?_, ?_, ?_, ?_, ?_, ?_⟩ <;> intro s _ _ <;>
+      simp only [ruleValue, ruleMember, objectLoop, ruleObject, arrayLoop, ruleArray, yieldItems_nil, excess,
+        itemsDepth_nil] <;> (have := H_nonneg s.toks; constructor <;> omega)
+  | succ fuel ih =>
+    obtain ⟨ihV, ihM, ihOL, ihO, ihAL, ihA⟩ := ih
+    have kV := (coh_stable.rules fuel).1
+    have kM := (coh_stable.rules fuel).2.1
+    have yV := (rules_yield fuel).1
+    have yM := (rules_yield fuel).2.1
+    refine ⟨?_, ?_, ?_, ?_, ?_, ?_⟩
+    · -- rule_value
+      intro s hc _
+      have hH := H_nonneg s.toks
+      simp only [ruleValue]
+      split
+      · rename_i hk; exact ihO s hc hk
+      split
+      · rename_i hk; exact ihA s hc hk
+      split
+      · have := ruleLiteral_items s hc
+        exact ⟨by omega, by omega⟩
+      · simp only [yieldItems_nil, excess, itemsDepth_nil]
+        constructor <;> omega
+    · -- rule_member
+      intro s hc _
+      simp only [ruleMember]
+      rw [yield_closeRule]
+      have c1 := coh_stable.expect .string s hc
+      have c2 := coh_stable.expect .colon _ c1
+      have e1 := expect_items s .string hc (by decide)
+      have e2 := expect_items (s.expect .string).1 .colon c1 (by decide)
+      have h1 := H_step (expect_yields .string) s
+      have h2 := H_step (expect_yields .colon) (s.expect .string).1
+      obtain ⟨x3, d3⟩ := ihV ((s.expect .string).1.expect .colon).1 c2 trivial
+      have x1 : excess (yieldItems (s.expect .string).2) = 0 := by rw [e1.2]; split <;> rfl
+      have x2 : excess (yieldItems ((s.expect .string).1.expect .colon).2) = 0 := by rw [e2.2]; split <;> rfl
+      have hd := itemsDepth_closeRule .member ((s.expect .string).2 ++ ((s.expect .string).1.expect .colon).2 ++
+        (ruleValue fuel ((s.expect .string).1.expect .colon).1).2)
+      rw [itemsDepth_append, itemsDepth_append, e1.1, e2.1] at hd
+      simp only [yieldItems_append, excess_append, x1, x2]
+      constructor
+      · omega
+      · simp only [Nat.zero_max] at hd
+        omega
+    · -- the loop of rule_object
+      intro s hc _
+      have hH := H_nonneg s.toks
+      simp only [objectLoop]
+      split
+      · rename_i hk
+        have c1 := coh_stable.expect .comma s hc
+        have e1 := expect_items s .comma hc (by decide)
+        have h1 := H_step (expect_yields .comma) s
+        have x1 : excess (yieldItems (s.expect .comma).2) = 0 := by rw [e1.2]; split <;> rfl
+        obtain ⟨x2, d2⟩ := ihM (s.expect .comma).1 c1 trivial
+        have c2 := kM _ c1
+        have h2 := H_step yM (s.expect .comma).1
+        obtain ⟨x3, d3⟩ := ihOL (ruleMember fuel (s.expect .comma).1).1 c2 trivial
+        simp only [yieldItems_append, excess_append, x1, itemsDepth_append, e1.1]
+        constructor
+        · omega
+        · simp only [Nat.zero_max]
+          have : ((max (itemsDepth (ruleMember fuel (s.expect .comma).1).2)
+              (itemsDepth (objectLoop fuel (ruleMember fuel (s.expect .comma).1).1).2) : Nat) : Int) ≤ 2 * H s.toks + 3 := by
+            apply cast_max_le <;> omega
+          exact this
+      split
+      · simp only [yieldItems_nil, excess, itemsDepth_nil]
+        constructor <;> omega
+      · rename_i h1 h2
+        have hne : s.current ≠ .eof := by intro e; simp [e] at h2
+        have hb : 0 ≤ bw s.current := by
+          unfold bw
+          cases hk : s.current <;> simp [hk] at h2 ⊢
+        have c1 := coh_stable.advanceWithError s hc
+        have e1 := advanceWithError_items s hc hne
+        have hh := H_step advanceWithError_yields s
+        obtain ⟨x2, d2⟩ := ihOL s.advanceWithError.1 c1 trivial
+        simp only [yieldItems_append, excess_append, e1.2, itemsDepth_append]
+        constructor
+        · omega
+        · apply cast_max_le
+          · have := e1.1; omega
+          · rw [e1.2] at hh; omega
+    · -- rule_object behind `{`
+      intro s hc hk
+      have hH := H_nonneg s.toks
+      simp only [ruleObject]
+      rw [yield_closeRule]
+      have c1 := coh_stable.expect .lbrace s hc
+      have e1 := expect_items s .lbrace hc (by decide)
+      have h1 := H_step (expect_yields .lbrace) s
+      have x1 : excess (yieldItems (s.expect .lbrace).2) = 1 := by rw [e1.2, if_pos hk]; rfl
+      rw [x1] at h1
+      by_cases hs : ((s.expect .lbrace).1.current == .string) = true
+      · simp only [if_pos hs]
+        obtain ⟨x2, d2⟩ := ihM (s.expect .lbrace).1 c1 trivial
+        have c2 := kM _ c1
+        have h2 := H_step yM (s.expect .lbrace).1
+        obtain ⟨x3, d3⟩ := ihOL (ruleMember fuel (s.expect .lbrace).1).1 c2 trivial
+        have c3 := (coh_stable.rules fuel).2.2.1 _ c2
+        have e4 := expect_items (objectLoop fuel (ruleMember fuel (s.expect .lbrace).1).1).1 .rbrace c3 (by decide)
+        have x4 : -1 ≤ excess (yieldItems ((objectLoop fuel (ruleMember fuel (s.expect .lbrace).1).1).1.expect .rbrace).2) := by
+          rw [e4.2]; split <;> decide
+        have hd := itemsDepth_closeRule .object ((s.expect .lbrace).2 ++
+          ((ruleMember fuel (s.expect .lbrace).1).2 ++ (objectLoop fuel (ruleMember fuel (s.expect .lbrace).1).1).2) ++
+          ((objectLoop fuel (ruleMember fuel (s.expect .lbrace).1).1).1.expect .rbrace).2)
+        simp only [itemsDepth_append, e1.1, e4.1, Nat.zero_max, Nat.max_zero] at hd
+        simp only [yieldItems_append, excess_append, x1]
+        constructor
+        · omega
+        · have : ((max (itemsDepth (ruleMember fuel (s.expect .lbrace).1).2)
+              (itemsDepth (objectLoop fuel (ruleMember fuel (s.expect .lbrace).1).1).2) : Nat) : Int) ≤ 2 * H s.toks + 1 := by
+            apply cast_max_le <;> omega
+          omega
+      · simp only [if_neg hs]
+        have tail : ∀ s2 : PState, Coh s2 → s2.toks = (s.expect .lbrace).1.toks →
+            0 ≤ excess (yieldItems ((s.expect .lbrace).2 ++ ([] : List Item) ++ (s2.expect .rbrace).2)) ∧
+            (itemsDepth (closeRule .object ((s.expect .lbrace).2 ++ ([] : List Item) ++ (s2.expect .rbrace).2)) : Int) ≤
+              2 * H s.toks + 2 := by
+          intro s2 hc2 _
+          have e4 := expect_items s2 .rbrace hc2 (by decide)
+          have x4 : -1 ≤ excess (yieldItems (s2.expect .rbrace).2) := by rw [e4.2]; split <;> decide
+          have hd := itemsDepth_closeRule .object ((s.expect .lbrace).2 ++ ([] : List Item) ++ (s2.expect .rbrace).2)
+          simp only [itemsDepth_append, e1.1, e4.1, itemsDepth_nil, Nat.max_self] at hd
+          simp only [yieldItems_append, excess_append, x1, yieldItems_nil, excess]
+          constructor <;> omega
+        by_cases hr : ((s.expect .lbrace).1.current == .rbrace) = true
+        · simp only [if_pos hr]
+          exact tail _ c1 rfl
+        · simp only [if_neg hr]
+          exact tail _ (coh_stable.error _ c1) (error_toks _)
+    · -- the loop of rule_array
+      intro s hc _
+      have hH := H_nonneg s.toks
+      simp only [arrayLoop]
+      split
+      · rename_i hk
+        have c1 := coh_stable.expect .comma s hc
+        have e1 := expect_items s .comma hc (by decide)
+        have h1 := H_step (expect_yields .comma) s
+        have x1 : excess (yieldItems (s.expect .comma).2) = 0 := by rw [e1.2]; split <;> rfl
+        obtain ⟨x2, d2⟩ := ihV (s.expect .comma).1 c1 trivial
+        have c2 := kV _ c1
+        have h2 := H_step yV (s.expect .comma).1
+        obtain ⟨x3, d3⟩ := ihAL (ruleValue fuel (s.expect .comma).1).1 c2 trivial
+        simp only [yieldItems_append, excess_append, x1, itemsDepth_append, e1.1]
+        constructor
+        · omega
+        · simp only [Nat.zero_max]
+          apply cast_max_le <;> omega
+      split
+      · simp only [yieldItems_nil, excess, itemsDepth_nil]
+        constructor <;> omega
+      · rename_i h1 h2
+        have hne : s.current ≠ .eof := by intro e; simp [e] at h2
+        have hb : 0 ≤ bw s.current := by
+          unfold bw
+          cases hk : s.current <;> simp [hk] at h2 ⊢
+        have c1 := coh_stable.advanceWithError s hc
+        have e1 := advanceWithError_items s hc hne
+        have hh := H_step advanceWithError_yields s
+        obtain ⟨x2, d2⟩ := ihAL s.advanceWithError.1 c1 trivial
+        simp only [yieldItems_append, excess_append, e1.2, itemsDepth_append]
+        constructor
+        · omega
+        · apply cast_max_le
+          · have := e1.1; omega
+          · rw [e1.2] at hh; omega
+    · -- rule_array behind `[`
+      intro s hc hk
+      have hH := H_nonneg s.toks
+      simp only [ruleArray]
+      rw [yield_closeRule]
+      have c1 := coh_stable.expect .lbrak s hc
+      have e1 := expect_items s .lbrak hc (by decide)
+      have h1 := H_step (expect_yields .lbrak) s
+      have x1 : excess (yieldItems (s.expect .lbrak).2) = 1 := by rw [e1.2, if_pos hk]; rfl
+      rw [x1] at h1
+      by_cases hs : isValueStart (s.expect .lbrak).1.current = true
+      · simp only [if_pos hs]
+        obtain ⟨x2, d2⟩ := ihV (s.expect .lbrak).1 c1 trivial
+        have c2 := kV _ c1
+        have h2 := H_step yV (s.expect .lbrak).1
+        obtain ⟨x3, d3⟩ := ihAL (ruleValue fuel (s.expect .lbrak).1).1 c2 trivial
+        have c3 := (coh_stable.rules fuel).2.2.2.2.1 _ c2
+        have e4 := expect_items (arrayLoop fuel (ruleValue fuel (s.expect .lbrak).1).1).1 .rbrak c3 (by decide)
+        have x4 : -1 ≤ excess (yieldItems ((arrayLoop fuel (ruleValue fuel (s.expect .lbrak).1).1).1.expect .rbrak).2) := by
+          rw [e4.2]; split <;> decide
+        have hd := itemsDepth_closeRule .array ((s.expect .lbrak).2 ++
+          ((ruleValue fuel (s.expect .lbrak).1).2 ++ (arrayLoop fuel (ruleValue fuel (s.expect .lbrak).1).1).2) ++
+          ((arrayLoop fuel (ruleValue fuel (s.expect .lbrak).1).1).1.expect .rbrak).2)
+        simp only [itemsDepth_append, e1.1, e4.1, Nat.zero_max, Nat.max_zero] at hd
+        simp only [yieldItems_append, excess_append, x1]
+        constructor
+        · omega
+        · have : ((max (itemsDepth (ruleValue fuel (s.expect .lbrak).1).2)
+              (itemsDepth (arrayLoop fuel (ruleValue fuel (s.expect .lbrak).1).1).2) : Nat) : Int) ≤ 2 * H s.toks := by
+            apply cast_max_le <;> omega
+          omega
+      · simp only [if_neg hs]
+        have tail : ∀ s2 : PState, Coh s2 → s2.toks = (s.expect .lbrak).1.toks →
+            0 ≤ excess (yieldItems ((s.expect .lbrak).2 ++ ([] : List Item) ++ (s2.expect .rbrak).2)) ∧
+            (itemsDepth (closeRule .array ((s.expect .lbrak).2 ++ ([] : List Item) ++ (s2.expect .rbrak).2)) : Int) ≤
+              2 * H s.toks + 2 := by
+          intro s2 hc2 _
+          have e4 := expect_items s2 .rbrak hc2 (by decide)
+          have x4 : -1 ≤ excess (yieldItems (s2.expect .rbrak).2) := by rw [e4.2]; split <;> decide
+          have hd := itemsDepth_closeRule .array ((s.expect .lbrak).2 ++ ([] : List Item) ++ (s2.expect .rbrak).2)
+          simp only [itemsDepth_append, e1.1, e4.1, itemsDepth_nil, Nat.max_self] at hd
+          simp only [yieldItems_append, excess_append, x1, yieldItems_nil, excess]
+          constructor <;> omega
+        by_cases hr : ((s.expect .lbrak).1.current == .rbrak) = true
+        · simp only [if_pos hr]
+          exact tail _ c1 rfl
+        · simp only [if_neg hr]
+          exact tail _ (coh_stable.error _ c1) (error_toks _)
+
+theorem itemsDepth_tokens (ts : List Token) (f : Token → Bool) :
+    itemsDepth (ts.map fun t => (⟨.tok t.kind t.start t.stop, f t⟩ : Item)) = 0 := by
+  apply Nat.le_antisymm _ (Nat.zero_le _)
+  rw [itemsDepth_le_iff]
+  intro i hi
+  obtain ⟨t, _, rfl⟩ := List.mem_map.1 hi
+  simp [Node.depth]
+
+theorem parseTail_depth (s : PState) : itemsDepth (parseTail s).2 ≤ 1 := by
+  unfold parseTail
+  split
+  · have := itemsDepth_closeRule .error (s.error.toks.map fun t => (⟨.tok t.kind t.start t.stop, isSkipTok t.kind⟩ : Item))
+    rw [itemsDepth_tokens] at this
+    exact this
+  · simp
+
+/-- **the tree of every input is shallow**: at most `2·256 + 3` levels below the root -/
+theorem parse_tree_depth (cs : List Char) : (parse cs).root.depth ≤ 516 := by
+  unfold parse
+  simp only [Node.depth]
+  have hrv := (rules_depth (2 * (tokenize cs).tokens.length + 4)).1 (initState (tokenize cs) (utf8Len cs))
+    (initState_coh _ _) trivial
+  have hH : H (initState (tokenize cs) (utf8Len cs)).toks ≤ 256 := by
+    have h1 := tokenize_H cs
+    have h2 : H (takeSkips (tokenize cs).tokens).2.1 ≤ H (tokenize cs).tokens - excess (yieldItems (takeSkips (tokenize cs).tokens).1) :=
+      H_of_yield (takeSkips_yield _)
+    rw [(takeSkips_items _).2] at h2
+    simp only [initState]
+    omega
+  have htl := parseTail_depth (ruleValue (2 * (tokenize cs).tokens.length + 4) (initState (tokenize cs) (utf8Len cs))).1
+  have hsk := (takeSkips_items (tokenize cs).tokens).1
+  have : depthList (((takeSkips (tokenize cs).tokens).1 ++
+      (ruleValue (2 * (tokenize cs).tokens.length + 4) (initState (tokenize cs) (utf8Len cs))).2 ++
+      (parseTail (ruleValue (2 * (tokenize cs).tokens.length + 4) (initState (tokenize cs) (utf8Len cs))).1).2).map (·.node)) =
+      itemsDepth ((takeSkips (tokenize cs).tokens).1 ++
+      (ruleValue (2 * (tokenize cs).tokens.length + 4) (initState (tokenize cs) (utf8Len cs))).2 ++
+      (parseTail (ruleValue (2 * (tokenize cs).tokens.length + 4) (initState (tokenize cs) (utf8Len cs))).1).2) := rfl
+  rw [this, itemsDepth_append, itemsDepth_append, hsk]
+  have h2 := hrv.2
+  omega
+
 end ShapeVerif
